@@ -73,7 +73,7 @@ package websocket
 //@ ensures [nonneg] err == nil ==> h.payloadLength >= 0
 //@ ensures [zero-on-err] err != nil ==> h == header{}
 //@ ensures [not-ce] !errIsCE(err)
-//@ ensures [not-eof] err != io.EOF
+//@ ensures [not-eof] err != io.EOF && err != io.ErrUnexpectedEOF
 
 //@ func writeFrameHeader
 //@ tags C02
@@ -178,7 +178,7 @@ package websocket
 //@ ensures [rearm] {C10} result1 == nil ==> gvcArmed(c.readTimeout) == context.Background()
 //@ ensures [zero-on-err] result1 != nil ==> result0 == header{}
 //@ ensures [not-ce] !errIsCE(result1)
-//@ ensures [not-eof] result1 != io.EOF
+//@ ensures [not-eof] result1 != io.EOF && result1 != io.ErrUnexpectedEOF
 
 //@ func (*Conn).readFramePayload
 //@ tags C03 C04 C10 C09
@@ -190,7 +190,7 @@ package websocket
 //@ ensures [eof-short] {C04} errIs(result1, io.EOF) || errIs(result1, io.ErrUnexpectedEOF) ==> result0 < len(p)
 //@ ensures [rearm] {C10} result1 == nil ==> gvcArmed(c.readTimeout) == context.Background()
 //@ ensures [not-ce] !errIsCE(result1)
-//@ ensures [not-eof] result1 != io.EOF
+//@ ensures [not-eof] result1 != io.EOF && result1 != io.ErrUnexpectedEOF
 
 // Footprints (textual macros).
 //@ define RDFP ghrd(c.br).pos, c.readHeaderBuf, c.readControlBuf, chanstate(c.readTimeout)
@@ -298,7 +298,7 @@ package websocket
 //@ ensures [ok-keeps] result1 == nil ==> connReady(c) && c.br == old(c.br) && gvcHeld(c.readMu.ch) && !gvcHeld(c.writeFrameMu.ch) && !gvcHeld(c.msgWriter.writeMu.ch)
 //@ ensures [rearm] {C10} result1 == nil ==> gvcArmed(c.readTimeout) == context.Background()
 //@ ensures [zero-on-err] result1 != nil ==> result0 == header{}
-//@ ensures [not-eof] result1 != io.EOF
+//@ ensures [not-eof] result1 != io.EOF && result1 != io.ErrUnexpectedEOF
 //@ ensures [dict-released-only] c.msgReader.dict == old(c.msgReader.dict) || c.msgReader.dict == nil
 //@ loop 1 modifies $RDFP, $WRFP, $CLFP
 //@ loop 1 invariant [inv] connReady(c) && c.br == old(c.br) && c.br != nil && gvcHeld(c.readMu.ch) && !gvcHeld(c.writeFrameMu.ch) && !gvcHeld(c.msgWriter.writeMu.ch) && (c.msgReader.dict == old(c.msgReader.dict) || c.msgReader.dict == nil)
@@ -325,6 +325,7 @@ package websocket
 //@ ensures [dict-released-only] mr.dict == old(mr.dict) || mr.dict == nil
 //@ ensures [err-not-complete] {C04} (errIs(result1, io.EOF) || errIs(result1, io.ErrUnexpectedEOF)) && result1 != io.EOF ==> !(mr.fin && mr.payloadLength == 0)
 //@ ensures [advance] {C04 C01} old(mr.payloadLength) > 0 && mr.c.br == old(mr.c.br) ==> mr.payloadLength == old(mr.payloadLength)-int64(result0) && mr.fin == old(mr.fin)
+//@ ensures [ok-keeps] {C18 C19} result1 == nil || result1 == io.EOF || result1 == io.ErrUnexpectedEOF ==> connOpen(mr.c) && mr.c.br == old(mr.c.br) && gvcHeld(mr.c.readMu.ch)
 //@ loop 1 modifies mr.fin, mr.payloadLength, mr.maskKey, $RDFPm, $WRFPm, $CLFPm
 //@ loop 1 invariant [inv] connReady(mr.c) && !gvcHeld(mr.c.writeFrameMu.ch) && !gvcHeld(mr.c.msgWriter.writeMu.ch) && mr.c.br == old(mr.c.br) && mr.c.br != nil && gvcHeld(mr.c.readMu.ch) && mr.payloadLength >= 0 && gvcSameSlice(p, old(p)) && (mr.dict == old(mr.dict) || mr.dict == nil) && (old(mr.payloadLength) > 0 ==> mr.payloadLength == old(mr.payloadLength) && mr.fin == old(mr.fin))
 
@@ -340,6 +341,8 @@ package websocket
 //@ ensures [dict-released-only] lr.c.msgReader.dict == old(lr.c.msgReader.dict) || lr.c.msgReader.dict == nil
 //@ ensures [dict-buf-kept] lr.c.msgReader.dict != nil ==> gvcSameSlice(lr.c.msgReader.dict.buf, old(lr.c.msgReader.dict.buf))
 //@ ensures [readmu-released-only-closed] {C05} !gvcHeld(lr.c.readMu.ch) ==> gvcClosed(lr.c.closed) || !old(gvcHeld(lr.c.readMu.ch))
+//@ ensures [ok-keeps] {C18 C19} (result1 == nil || result1 == io.EOF || result1 == io.ErrUnexpectedEOF) && old(lr.c.br != nil) ==> connOpen(lr.c) && lr.c.br == old(lr.c.br) && gvcHeld(lr.c.readMu.ch) == old(gvcHeld(lr.c.readMu.ch))
+//@ ensures [err-not-complete] {C18 C19} (errIs(result1, io.EOF) || errIs(result1, io.ErrUnexpectedEOF)) && result1 != io.EOF && result1 != io.ErrUnexpectedEOF ==> !(lr.c.msgReader.fin && lr.c.msgReader.payloadLength == 0)
 
 //@ func (*msgReader).Read
 //@ tags C04 C03 C08
@@ -357,6 +360,7 @@ package websocket
 //@ ensures [budget] {C08} old(mr.limitReader.n) > 0 ==> int64(n) <= old(mr.limitReader.n) && mr.limitReader.n == old(mr.limitReader.n)-int64(n)
 //@ ensures [exhausted-fails] {C08} old(mr.limitReader.n) == 0 ==> n == 0 && err != nil && !errIs(err, io.EOF)
 //@ ensures [unlimited] {C08} old(mr.limitReader.n) < 0 ==> mr.limitReader.n == old(mr.limitReader.n)
+//@ ensures [ok-keeps] {C18 C19} (err == nil || err == io.EOF) && old(mr.c.br != nil) ==> connOpen(mr.c) && mr.c.br == old(mr.c.br) && !gvcHeld(mr.c.readMu.ch)
 
 // ---------------------------------------------------------------------------
 // compress.go: the 32 KiB sliding window kept as inflate dictionary (C01)
@@ -679,6 +683,11 @@ package websocket
 //@ ensures [limit-reload] {C08} err == nil ==> c.msgReader.limitReader.n == ghi64(&c.msgReader.limitReader.limit).val
 //@ ensures [unlocked] {C05} !gvcHeld(c.readMu.ch)
 //@ ensures [closed-fails] {C06} old(gvcClosed(c.closed)) ==> err != nil
+//@ ensures [ok-keeps] {C18 C19} err == nil ==> connOpen(c) && c.br == old(c.br) && c.msgReader.ctx == ctx
+//@ ensures [not-bare-eof] {C18} err != io.EOF
+//@ ensures [reader-returned] {C18 C19} err == nil ==> result1 != nil
+//@ ensures [reader-owner] {assume} err == nil ==> ghconn(result1) == c
+//@ note [reader-owner] defines the ghost relation ghconn for the message reader handed to the caller (assumption A-internal-readers): it reads for this connection
 
 // ---------------------------------------------------------------------------
 // conn.go: ping, timeout watcher (C15, C20, C10)
@@ -959,3 +968,102 @@ package websocket
 //@ ensures [prefix] forall(0, old(ghwr(tw.w).pos), func(k int) bool { return ghwr(tw.w).out[k] == old(ghwr(tw.w).out[k]) })
 //@ ensures [forwarded-content] result1 == nil ==> forall(0, old(len(tw.tail))+len(p)-len(tw.tail), func(k int) bool { return ghwr(tw.w).out[old(ghwr(tw.w).pos)+k] == old(specCat(tw.tail, p, k)) })
 //@ ensures [tail-content] result1 == nil ==> forall(0, len(tw.tail), func(i int) bool { return tw.tail[i] == old(specCat(tw.tail, p, len(tw.tail)+len(p)-specMin(4, len(tw.tail)+len(p))+i)) })
+
+// ---------------------------------------------------------------------------
+// netconn.go: the net.Conn adapter (C18). gvcCalls / gvcCallArg / gvcCallRes are the
+// call-trace ghost: which functions under contract were called on the path, with which
+// arguments and results.
+
+//@ define NCW nc.c
+//@ func (*netConn).Write
+//@ tags C18
+//@ requires netConnInv(nc) && !gvcHeld(nc.writeMu.ch) && (nc.msgType == MessageText || nc.msgType == MessageBinary) && len(p) < 1<<56
+//@ requires connInv(nc.c) && specWriteInv(nc.c) && !gvcHeld(nc.c.msgWriter.mu.ch) && !gvcHeld(nc.c.msgWriter.writeMu.ch) && !gvcHeld(nc.c.writeFrameMu.ch)
+//@ requires [alias] len(p) == 0 || ((nc.c.client ==> gvcRegion(nc.c.writeBuf) != gvcRegion(p)) && gvcRegion(nc.c.writeHeaderBuf[:]) != gvcRegion(p))
+//@ requires [flate-owner] (nc.c.msgWriter.flateWriter != nil ==> ghconnW(ghfw(nc.c.msgWriter.flateWriter).dst) == nc.c) && (nc.c.copts == nil ==> nc.c.msgWriter.flateWriter == nil)
+//@ opt noframe=mem:u8
+//@ modifies chanstate(nc.writeMu.ch), ghwr(nc.c.bw).pos, ghwr(nc.c.bw).out, ghwr(nc.c.bw).buffered, ghrd(specRand()).pos, nc.c.writeHeader, nc.c.writeHeaderBuf, bytes(nc.c.writeBuf), chanstate(nc.c.writeTimeout), chanstate(nc.c.writeFrameMu.ch), nc.c.closeSent, chanstate(nc.c.msgWriter.mu.ch), chanstate(nc.c.msgWriter.writeMu.ch), nc.c.msgWriter.ctx, nc.c.msgWriter.opcode, nc.c.msgWriter.flate, nc.c.msgWriter.closed, nc.c.msgWriter.trimWriter, nc.c.msgWriter.flateWriter, ghfw(nc.c.msgWriter.flateWriter).dst, nc.c.msgWriter.trimWriter.tail, bytes(nc.c.msgWriter.trimWriter.tail)
+//@ ensures [expired] old(nc.writeExpired) == 1 ==> result0 == 0 && errIs(result1, context.DeadlineExceeded) && gvcCalls("(*Conn).Write") == 0
+//@ ensures [one-message] old(nc.writeExpired) != 1 ==> gvcCalls("(*Conn).Write") == 1 && gvcCallArg[MessageType]("(*Conn).Write", 2) == nc.msgType && gvcCallArg[context.Context]("(*Conn).Write", 1) == nc.writeCtx && gvcSameSlice(gvcCallArg[[]byte]("(*Conn).Write", 3), p)
+//@ ensures [n] (result1 == nil ==> result0 == len(p)) && (result1 != nil ==> result0 == 0)
+//@ ensures [err] old(nc.writeExpired) != 1 ==> result1 == gvcCallRes[error]("(*Conn).Write", 0)
+//@ ensures [unlocked] !gvcHeld(nc.writeMu.ch)
+
+//@ define NRD ghrd(nc.c.br).pos, nc.c.readHeaderBuf, nc.c.readControlBuf, chanstate(nc.c.readTimeout)
+//@ define NWR ghwr(nc.c.bw).pos, ghwr(nc.c.bw).out, ghwr(nc.c.bw).buffered, ghrd(specRand()).pos, nc.c.writeHeader, nc.c.writeHeaderBuf, bytes(nc.c.writeBuf), chanstate(nc.c.writeTimeout), chanstate(nc.c.writeFrameMu.ch), nc.c.closeSent
+//@ define NCL chanstate(nc.c.closed), chanstate(nc.c.readMu.ch), chanstate(nc.c.msgWriter.writeMu.ch), nc.c.br, nc.c.msgReader.flateReader, nc.c.msgReader.dict, nc.c.msgWriter.flateWriter, nc.c.closeReceived
+//@ define NMR nc.c.msgReader.ctx, nc.c.msgReader.flate, nc.c.msgReader.limitReader.n, nc.c.msgReader.limitReader.r, nc.c.msgReader.fin, nc.c.msgReader.payloadLength, nc.c.msgReader.maskKey, nc.c.msgReader.flateBufio, nc.c.msgReader.flateTail
+
+//@ func (*netConn).read
+//@ tags C18
+//@ requires netConnInv(nc) && !gvcHeld(nc.c.readMu.ch)
+//@ requires [conn-open] nc.readExpired == 1 || nc.readEOFed || (connOpen(nc.c) && ghconn(io.Reader(nc.c.msgReader.readFunc)) == nc.c && nc.c.msgReader.readFunc != nil)
+//@ requires [join-state] nc.c.timeoutLoopDone != nil && (nc.c.closeReadCtx != nil ==> nc.c.closeReadDone != nil)
+//@ requires [reader-owner] nc.reader != nil ==> ghconn(nc.reader) == nc.c
+//@ opt noframe=mem:u8
+//@ modifies nc.readEOFed, nc.reader, bytes(p), $NRD, $NWR, $NCL, $NMR, nc.c.closing
+//@ ensures [expired] old(nc.readExpired) == 1 ==> result0 == 0 && errIs(result1, context.DeadlineExceeded) && gvcCalls("(*Conn).reader") == 0 && gvcCalls("(io.Reader).Read") == 0 && gvcCalls("(*Conn).Close") == 0 && nc.reader == old(nc.reader) && nc.readEOFed == old(nc.readEOFed)
+//@ ensures [eof-sticky] old(nc.readExpired) != 1 && old(nc.readEOFed) ==> result0 == 0 && result1 == io.EOF && gvcCalls("(*Conn).reader") == 0 && gvcCalls("(io.Reader).Read") == 0
+//@ ensures [eof-only-after-close] result1 == io.EOF ==> nc.readEOFed
+//@ ensures [eof-iff-normal-close] !old(nc.readEOFed) && nc.readEOFed ==> gvcCalls("(*Conn).reader") == 1 && specNetConnEOF(gvcCallRes[error]("(*Conn).reader", 2)) && result1 == io.EOF && result0 == 0
+//@ ensures [normal-close-is-eof] old(nc.readExpired) != 1 && !old(nc.readEOFed) && old(nc.reader) == nil && specNetConnEOF(gvcCallRes[error]("(*Conn).reader", 2)) ==> result1 == io.EOF && nc.readEOFed
+//@ ensures [other-errors-kept] old(nc.readExpired) != 1 && !old(nc.readEOFed) && old(nc.reader) == nil && gvcCallRes[error]("(*Conn).reader", 2) != nil && !specNetConnEOF(gvcCallRes[error]("(*Conn).reader", 2)) ==> result1 == gvcCallRes[error]("(*Conn).reader", 2) && result0 == 0 && !nc.readEOFed
+//@ ensures [wrong-type-closes] old(nc.readExpired) != 1 && !old(nc.readEOFed) && old(nc.reader) == nil && gvcCallRes[error]("(*Conn).reader", 2) == nil && gvcCallRes[MessageType]("(*Conn).reader", 0) != nc.msgType ==> result1 != nil && result0 == 0 && nc.reader == nil && gvcCalls("(*Conn).Close") == 1 && gvcCallArg[StatusCode]("(*Conn).Close", 1) == StatusUnsupportedData && gvcCalls("(io.Reader).Read") == 0
+//@ ensures [right-type-read] old(nc.readExpired) != 1 && !old(nc.readEOFed) && (old(nc.reader) != nil || (gvcCallRes[error]("(*Conn).reader", 2) == nil && gvcCallRes[MessageType]("(*Conn).reader", 0) == nc.msgType)) ==> gvcCalls("(io.Reader).Read") == 1 && gvcCalls("(*Conn).Close") == 0 && result0 == gvcCallRes[int]("(io.Reader).Read", 0) && gvcSameSlice(gvcCallArg[[]byte]("(io.Reader).Read", 1), p)
+//@ ensures [reads-current-message] old(nc.reader) != nil && gvcCalls("(io.Reader).Read") == 1 ==> gvcCallArg[io.Reader]("(io.Reader).Read", 0) == old(nc.reader) && gvcCalls("(*Conn).reader") == 0
+//@ ensures [reads-new-message] old(nc.reader) == nil && gvcCalls("(io.Reader).Read") == 1 ==> gvcCallArg[io.Reader]("(io.Reader).Read", 0) == gvcCallRes[io.Reader]("(*Conn).reader", 1)
+//@ ensures [message-end] gvcCalls("(io.Reader).Read") == 1 && gvcCallRes[error]("(io.Reader).Read", 1) == io.EOF ==> result1 == nil && nc.reader == nil
+//@ ensures [message-continues] gvcCalls("(io.Reader).Read") == 1 && gvcCallRes[error]("(io.Reader).Read", 1) != io.EOF ==> result1 == gvcCallRes[error]("(io.Reader).Read", 1) && nc.reader == gvcCallArg[io.Reader]("(io.Reader).Read", 0)
+//@ ensures [n] 0 <= result0 && result0 <= len(p)
+//@ ensures [reader-owner] nc.reader != nil ==> ghconn(nc.reader) == nc.c
+//@ ensures [inv] netConnInv(nc) && nc.readMu == old(nc.readMu) && nc.c == old(nc.c)
+//@ ensures [ok-keeps] result1 == nil ==> connOpen(nc.c) && nc.c.br == old(nc.c.br) && !gvcHeld(nc.c.readMu.ch)
+
+//@ func (*netConn).Read
+//@ tags C18
+//@ requires netConnInv(nc) && !gvcHeld(nc.c.readMu.ch) && !gvcHeld(nc.readMu.ch)
+//@ requires [conn-open] nc.readExpired == 1 || nc.readEOFed || (connOpen(nc.c) && ghconn(io.Reader(nc.c.msgReader.readFunc)) == nc.c && nc.c.msgReader.readFunc != nil)
+//@ requires [join-state] nc.c.timeoutLoopDone != nil && (nc.c.closeReadCtx != nil ==> nc.c.closeReadDone != nil)
+//@ requires [reader-owner] nc.reader != nil ==> ghconn(nc.reader) == nc.c
+//@ opt noframe=mem:u8
+//@ modifies chanstate(nc.readMu.ch), nc.readEOFed, nc.reader, bytes(p), $NRD, $NWR, $NCL, $NMR, nc.c.closing
+//@ ensures [empty-skipped] result1 == nil ==> result0 > 0
+//@ ensures [last-read] gvcCalls("(*netConn).read") >= 1 && result0 == gvcCallRes[int]("(*netConn).read", 0) && result1 == gvcCallRes[error]("(*netConn).read", 1) && gvcSameSlice(gvcCallArg[[]byte]("(*netConn).read", 1), p)
+//@ ensures [n] 0 <= result0 && result0 <= len(p)
+//@ ensures [unlocked] !gvcHeld(nc.readMu.ch)
+//@ ensures [eof-only-after-close] result1 == io.EOF ==> nc.readEOFed
+//@ ensures [reader-owner] nc.reader != nil ==> ghconn(nc.reader) == nc.c
+//@ loop 1 modifies nc.readEOFed, nc.reader, bytes(p), $NRD, $NWR, $NCL, $NMR, nc.c.closing
+//@ loop 1 invariant [inv] netConnInv(nc) && gvcHeld(nc.readMu.ch) && !gvcHeld(nc.c.readMu.ch) && gvcSameSlice(p, old(p)) && nc.c == old(nc.c) && nc.readMu == old(nc.readMu) && nc.c.br == old(nc.c.br)
+//@ loop 1 invariant [conn-open] nc.readExpired == 1 || nc.readEOFed || (connOpen(nc.c) && ghconn(io.Reader(nc.c.msgReader.readFunc)) == nc.c && nc.c.msgReader.readFunc != nil)
+//@ loop 1 invariant [join-state] nc.c.timeoutLoopDone != nil && (nc.c.closeReadCtx != nil ==> nc.c.closeReadDone != nil)
+//@ loop 1 invariant [reader-owner] nc.reader != nil ==> ghconn(nc.reader) == nc.c
+
+//@ func (*netConn).Close
+//@ tags C18
+//@ requires netConnInv(nc) && nc.writeTimer != nil && nc.readTimer != nil && connReady(nc.c) && !gvcHeld(nc.c.readMu.ch) && !gvcHeld(nc.c.writeFrameMu.ch) && !gvcHeld(nc.c.msgWriter.writeMu.ch) && (nc.c.br != nil || gvcClosed(nc.c.closed)) && nc.c.timeoutLoopDone != nil && (nc.c.closeReadCtx != nil ==> nc.c.closeReadDone != nil)
+//@ modifies nc.c.closing, $NWR, $NRD, $NCL
+//@ ensures [closes-normal] gvcCalls("(*Conn).Close") == 1 && gvcCallArg[StatusCode]("(*Conn).Close", 1) == StatusNormalClosure && gvcCallArg[*Conn]("(*Conn).Close", 0) == nc.c && result == gvcCallRes[error]("(*Conn).Close", 0)
+//@ ensures [cancels-both] gvcCalls("context.CancelFunc") == 2
+
+//@ func (*netConn).SetReadDeadline
+//@ tags C18
+//@ requires nc != nil && nc.readTimer != nil
+//@ modifies nc.readExpired
+//@ ensures [reset] nc.readExpired == 0 && result == nil
+//@ ensures [zero-stops] t.IsZero() ==> gvcCalls("(*time.Timer).Stop") == 1 && gvcCalls("(*time.Timer).Reset") == 0
+//@ ensures [armed-positive] !t.IsZero() ==> gvcCalls("(*time.Timer).Reset") == 1 && gvcCallArg[time.Duration]("(*time.Timer).Reset", 1) > 0 && gvcCallArg[*time.Timer]("(*time.Timer).Reset", 0) == nc.readTimer
+
+//@ func (*netConn).SetWriteDeadline
+//@ tags C18
+//@ requires nc != nil && nc.writeTimer != nil
+//@ modifies nc.writeExpired
+//@ ensures [reset] nc.writeExpired == 0 && result == nil
+//@ ensures [zero-stops] t.IsZero() ==> gvcCalls("(*time.Timer).Stop") == 1 && gvcCalls("(*time.Timer).Reset") == 0
+//@ ensures [armed-positive] !t.IsZero() ==> gvcCalls("(*time.Timer).Reset") == 1 && gvcCallArg[time.Duration]("(*time.Timer).Reset", 1) > 0 && gvcCallArg[*time.Timer]("(*time.Timer).Reset", 0) == nc.writeTimer
+
+//@ func (*netConn).SetDeadline
+//@ tags C18
+//@ requires nc != nil && nc.readTimer != nil && nc.writeTimer != nil
+//@ modifies nc.readExpired, nc.writeExpired
+//@ ensures [both] nc.readExpired == 0 && nc.writeExpired == 0 && result == nil && gvcCalls("(*netConn).SetWriteDeadline") == 1 && gvcCalls("(*netConn).SetReadDeadline") == 1
